@@ -340,6 +340,7 @@ func c09Scenario(r *sim.Run) {
 	defer s.Uninstall()
 	defer hook.ClearNetSeams()
 	s.LockYield = true
+	s.UnlockYield = true
 	s.Trace = func(l string) { r.Logf("step %s", l) }
 	systematic := tp.Choose("mode", 2) == 1
 	var scn string
